@@ -9,6 +9,8 @@ import (
 	_ "verif/sim/props/c06"
 	_ "verif/sim/props/c08"
 	_ "verif/sim/props/c11"
+	_ "verif/sim/props/c15"
+	_ "verif/sim/props/c16"
 	_ "verif/sim/props/c19"
 	_ "verif/sim/props/c20"
 )
